@@ -42,9 +42,14 @@ def plan(tier):
 CALLBACKS = ("BeforeMethodStart", "OnEndIteration", "OnMethodStop")
 
 
-def make_custom(overrides, sink):
+def make_custom(overrides, sink, value_eq=False):
     from iOpt.method.listener import Listener
     body = {}
+    if value_eq:
+        # a listener with value equality (what @dataclass gives a field-less recorder): two distinct listener
+        # objects of this kind compare equal, both are listeners in their own right
+        body["__eq__"] = lambda self, other: type(other).__name__ == type(self).__name__
+        body["__hash__"] = lambda self: hash(type(self).__name__)
     if "BeforeMethodStart" in overrides:
         def BeforeMethodStart(self, method):
             sink.append("start")
@@ -132,7 +137,13 @@ def cases(draw):
     # refineSolution=True: Solve ends with the local refinement, which rewrites the best trial in place; the
     # OnMethodStop solution and the console report must show the refined result
     refine = "solve" in ops and draw(st.integers(0, 2)) == 0
-    return {"recipe": recipe, "params": params, "customs": customs, "shipped": shipped, "ops": ops, "refine": refine}
+    case = {"recipe": recipe, "params": params, "customs": customs, "shipped": shipped, "ops": ops, "refine": refine}
+    case["value_eq"] = draw(st.integers(0, 3)) == 0
+    if not has_painter and draw(st.integers(0, 5)) == 0:
+        # the objective fails at its k-th evaluation while listeners are attached
+        case["fail_at"] = draw(st.integers(2, max(2, min(total, 30))))
+        case["refine"] = False
+    return case
 
 
 def summary(sol):
@@ -161,9 +172,59 @@ def plain_reference(case):
 PAINTER_MODES_FRAGILE = ("interpolation", "approximation")
 
 
+def fault_body(case):
+    """Listeners attached and the objective raises at evaluation k.  Deliberately weak oracle (the statement does
+    not say what a failed batch reports): no exception other than the injected one reaches the caller, none at all
+    from Solve; every trial a listener is told about was really evaluated, in order, with its value; each Solve
+    that returns has told OnMethodStop."""
+    n = case["recipe"]["n"]
+    clock = [0]
+    sink = []
+    run = Run(case["recipe"], case["params"], record=False, clock=clock)
+    first = make_recorder(clock)
+    run.solver.AddListener(first)
+    for ov in case["customs"]:
+        run.solver.AddListener(make_custom(ov, sink, case.get("value_eq", False)))
+    for spec in case["shipped"]:
+        if spec["kind"] == "console":
+            run.solver.AddListener(make_shipped(spec, n, None))
+    run.problem.fail_at = case["fail_at"]
+    run.problem.fail_exc = ValueError
+    nsolve = 0
+    for op in case["ops"]:
+        try:
+            if op == "solve":
+                run.solve()
+                nsolve += 1
+            else:
+                run.step(op)
+        except ValueError as e:
+            if "injected failure" not in str(e) or op == "solve":
+                raise
+            break
+        except Exception as e:
+            if "outside of interval" in str(e):
+                return False, ["float-resolution"]
+            raise
+    log = [(y, v) for _, y, v in run.problem.log]
+    told = [sv for e in first.events if e[0] == "iter" for sv in e[3]]
+    if len(told) > len(log) or told != log[:len(told)]:
+        k = next((i for i, t in enumerate(told) if i >= len(log) or t != log[i]), len(log))
+        fail("objective failing at evaluation %d: notification %d reports the trial %r, which was never evaluated "
+             "(%d evaluations completed)" % (case["fail_at"], k + 1, told[k] if k < len(told) else None, len(log)))
+    stops = sum(1 for e in first.events if e[0] == "stop")
+    if stops != nsolve:
+        fail("objective failing at evaluation %d: %d Solve calls returned but %d OnMethodStop notifications" %
+             (case["fail_at"], nsolve, stops))
+    failed = run.problem.calls >= case["fail_at"]
+    return failed and bool(told), ["N=%d" % n, "objective-fault:" + ("hit" if failed else "not-reached")]
+
+
 def body(case):
     import matplotlib
     import matplotlib.pyplot as plt
+    if case.get("fail_at") is not None:
+        return fault_body(case)
     n = case["recipe"]["n"]
     try:
         ref_seq, ref_loc, ref_sum = plain_reference(case)
@@ -179,7 +240,7 @@ def body(case):
         first, last = make_recorder(clock), make_recorder(clock)
         run.solver.AddListener(first)
         for ov in case["customs"]:
-            run.solver.AddListener(make_custom(ov, sink))
+            run.solver.AddListener(make_custom(ov, sink, case.get("value_eq", False)))
         for spec in case["shipped"]:
             run.solver.AddListener(make_shipped(spec, n, outdir))
         run.solver.AddListener(last)
@@ -301,6 +362,8 @@ def body(case):
         classes = ["N=%d" % n, "customs=%d" % len(case["customs"]), "probes>0" if nprobes else "probes=0",
                    "refine" if case.get("refine") else "no-refine"]
         classes += ["shipped=" + s["kind"] + (":" + s["mode"] if "mode" in s else "") for s in case["shipped"]]
+        if case.get("value_eq") and len(case["customs"]) >= 2:
+            classes.append("value-equal-listeners")
         for ov in case["customs"]:
             classes.append("override=" + ("+".join(c[:6] for c in sorted(ov)) or "none"))
         return (has_gap and big_batch), classes
